@@ -3,7 +3,7 @@ import numpy as np
 
 from .. import casecheck
 from ..evaluator import ev_expr
-from ..pool import contract, metadata_problem, core_arrays
+from ..pool import contract, metadata_problem, core_arrays, value_snapshot, value_changed
 from .c15 import leaf_values, psi_from_leaves, make_fn
 
 ASSUME = [
@@ -91,6 +91,7 @@ def replay(case):
             basis = lambda: [[make_fn(f) for f in mode] for mode in cfg['basis']]
             guess = TT(core_arrays(exp['guess']))
             gval = contract(guess.cores).copy()
+            gsnap = value_snapshot([guess])
             res = []
             for rep in (1, 2, 3):
                 sol = reg.arr(x, y, basis(), guess, repeats=rep, rcond=1e-10, progress=False)
@@ -108,11 +109,12 @@ def replay(case):
                 res.append(np.sqrt(rr))
             if any(res[k + 1] > res[k] * (1 + 1e-9) + 1e-9 * max(1.0, float(np.linalg.norm(y))) for k in range(2)):
                 out.append(('arr:descent', 'residual increases with the number of sweeps: %r' % (res,)))
-            if np.max(np.abs(contract(guess.cores) - gval)) > 1e-9 * max(1.0, float(np.max(np.abs(gval)))):
-                out.append(('arr:guess_changed', 'the initial guess was modified'))
+            if value_changed(gsnap):
+                out.append(('arr:guess_changed', 'the initial guess was modified (%s)' % value_changed(gsnap)))
             # one guess per row of y, passed as a list (as tests/test_regression.py does): the same results, and the
             # guesses in the list are arguments like any other
             glist = [guess.copy() for _ in range(y.shape[0])]
+            lsnap = value_snapshot(glist)
             sol_l = reg.arr(x, y, basis(), glist, repeats=3, rcond=1e-10, progress=False)
             if not isinstance(sol_l, list) or len(sol_l) != y.shape[0]:
                 out.append(('arr:list:length', 'one coefficient train per row of y expected'))
@@ -122,7 +124,7 @@ def replay(case):
                     if a.shape != b.shape or np.max(np.abs(a - b)) > 1e-7 * max(1.0, float(np.max(np.abs(b)))):
                         out.append(('arr:list:value', 'a list of guesses gives a different result than the single guess (row %d)' % k))
                         break
-                if any(np.max(np.abs(contract(g.cores) - gval)) > 1e-9 * max(1.0, float(np.max(np.abs(gval)))) for g in glist):
+                if value_changed(lsnap):
                     out.append(('arr:list:guess_changed', 'initial guesses passed as a list were modified'))
     except Exception as e:
         out.append(('%s:exception:%s' % (task, type(e).__name__), '%r (cfg d=%d m=%d)' % (e, cfg['d'], m)))
